@@ -141,6 +141,53 @@ def isinstance_table(rep, cases, info, res):
     return n
 
 
+def class_table(rep, grammars, label):
+    """textx_isinstance for an instance of every common class x every rule of every grammar, against
+    Peg!Conforms -- independent of any input (objects are allocated with __new__)."""
+    from textx import textx_isinstance
+    cases = [dict(id=i, g=g, cfg=D.default_cfg(), s=[]) for i, g in enumerate(grammars)]
+    res, st, _ = P.evaluate(PID, cases)
+    rep.add_oracle(f"PegOracle[class conformance {label}]", st)
+    n = 0
+    for c in cases:
+        r = res[c["id"]]
+        if not r["wf"]:
+            continue
+        try:
+            b = D.Built(c["g"], c["cfg"])
+        except Exception:
+            continue        # refused grammars are judged elsewhere
+        conf = {(p[0], p[1]) for p in r["conf"]}
+        kinds = {k[0]: k[1] for k in r["kinds"]}
+        bad = None
+        for cn, kd in kinds.items():
+            if kd != "common":
+                continue
+            cls = b.mm[cn]
+            o = cls.__new__(cls)
+            for rn in kinds:
+                if rn == "Comment":
+                    continue
+                try:
+                    got = bool(textx_isinstance(o, b.mm[rn]))
+                except RecursionError:
+                    got = "RecursionError"
+                n += 1
+                if got != ((cn, rn) in conf):
+                    bad = (cn, rn, got)
+                    break
+            if bad:
+                break
+        if bad:
+            rep.violation(dict(grammar=G.render_grammar(c["g"]), raw=dict(g=c["g"], cfg=c["cfg"], s=[]), obj=bad[0],
+                               rule=bad[1], observed=bad[2], expected=(bad[0], bad[1]) in conf),
+                          f"textx_isinstance(<{bad[0]}>, {bad[1]}) is {bad[2]} but Peg!Conforms says "
+                          f"{(bad[0], bad[1]) in conf} for grammar {G.render_grammar(c['g']).strip()!r}")
+        else:
+            rep.passed(None)
+    return n
+
+
 def run(rep):
     rng = random.Random(rep.seed)
     quick = rep.tier == "quick"
@@ -159,6 +206,8 @@ def run(rep):
     res, st, _ = P.evaluate(PID, [dict(c) for c in cases[: (400 if quick else 3000)]])
     rep.add_oracle("PegOracle[conformance]", st)
     stats["isinstance_checks"] = isinstance_table(rep, cases[: (400 if quick else 3000)], info, res)
+    gg = KindGen(rng)
+    stats["class_conformance_checks"] = class_table(rep, [gg.grammar() for _ in range(400 if quick else 4000)], "random")
     rep.bounds["random"] = stats
 
 
